@@ -240,8 +240,8 @@ Definition p_load (s : st) (k : key) : st * option (option rec) :=
       end
     end.
 
-(* UserSessions(u): the IDs whose stored record carries u, in store order,
-   followed by deleted IDs that carried u when deleted (a stale index). *)
+(* UserSessions(u): deleted IDs that carried u when deleted (a stale index),
+   followed by the IDs whose stored record carries u, in store order. *)
 Definition user_is (u : N) (x : option user) : bool :=
   match x with Some (v, _) => N.eqb u v | None => false end.
 
@@ -251,7 +251,7 @@ Definition p_usersessions (s : st) (u : N) : st * option (list key) :=
   else
     let live := map fst (filter (fun kr => user_is u (r_user (snd kr))) (store s)) in
     let dead := map fst (filter (fun kg => match snd kg with Some v => N.eqb u v | None => false end) (graves s)) in
-    (log s (EvUserSessions u true), Some (live ++ dead)).
+    (log s (EvUserSessions u true), Some (dead ++ live)).
 
 (* ------------------------------------------------------------------ cache *)
 
